@@ -44,7 +44,11 @@ SkipNets == <<
   Build(<<1, 4, 4>>, <<C3(2, "relu"), P2, D(8, "linear", FALSE), D(2, "linear", FALSE)>>),
   Build(<<1, 3, 3>>, <<T3x(1, "linear"), C3(1, "relu"), D(9, "relu", TRUE)>>),
   \* non-square maps: rows and columns must not be confused when a flat vector is cut back into a map
-  Build(<<1, 3, 5>>, <<C3(2, "relu"), C3(1, "linear"), D(3, "linear", TRUE)>>)
+  Build(<<1, 3, 5>>, <<C3(2, "relu"), C3(1, "linear"), D(3, "linear", TRUE)>>),
+  \* a skip between spatial tensors of EQUAL count but different shape (1 x 4 x 4 -> 4 x 2 x 2: the source is regrouped)
+  Build(<<1, 4, 4>>, <<[kind |-> "conv", hp |-> HP(4, 2, 2, 2, 2, 0, 0, 1, 1, "linear", FALSE)], C3(1, "relu"), D(2, "linear", FALSE)>>),
+  \* the U-Net pattern: a max-pool layer as the SOURCE of a skip (conv, pool, up-sampling deconv, conv, dense)
+  Build(<<1, 4, 4>>, <<C3(1, "linear"), P2, T2(1), C3(1, "relu"), D(2, "linear", FALSE)>>)
 >>
 LoopNets == <<
   Build(<<4>>, <<D(4, "relu", TRUE), D(4, "linear", FALSE), D(4, "relu", TRUE), D(2, "linear", FALSE)>>),
